@@ -221,6 +221,43 @@ def cutoff_postconditions(ctx, inst, facts):
     ctx.oblige("post:early-out exits found", n >= 2, inst, inst.get("span"), "%d call-free exits returning a literal zero/infinity" % n)
 
 
+def protocol_postconditions(ctx, inst, facts):
+    """C11 sentinel protocol of the moderate stage: every exit is either DECLINED (exp < 0, significand normalised: top bit set -- slow()'s
+    precondition) or DEFINITE (0 <= exp <= INFINITE_POWER, mant <= HIDDEN_BIT_MASK, and mant <= MANTISSA_MASK whenever exp >= 2 on the whole
+    exit, so that `mant | exp << MANTISSA_SIZE` does not corrupt the exponent field).  No exit may straddle the two."""
+    fty = None
+    for t in inst.get("targs", []):
+        if t.get("k") == "float":
+            fty = "f%d" % t["bits"]
+    if fty is None:
+        return
+    inf = facts.float_const(fty, "INFINITE_POWER")
+    hid = facts.float_const(fty, "HIDDEN_BIT_MASK")
+    msk = facts.float_const(fty, "MANTISSA_MASK")
+    ctx.record = True
+    n_def = n_dec = 0
+    for st, rv in ctx.exit_states:
+        ok = False
+        why = "result not tracked"
+        if isinstance(rv, Fields):
+            m, e = rv.d.get((("f", 0),)), rv.d.get((("f", 1),))
+            if isinstance(m, int) and isinstance(e, int) and m in G.base and e in G.base:
+                M, E = st.get_iv(m), st.get_iv(e)
+                why = "mant %s exp %s" % (M, E)
+                if E[1] < 0:
+                    n_dec += 1
+                    ok = M[0] >= 1 << 63
+                    why += " (declined: significand must have its top bit set)"
+                elif E[0] >= 0:
+                    n_def += 1
+                    ok = E[1] <= inf and M[0] >= 0 and M[1] <= hid and (E[0] < 2 or M[1] <= msk)
+                    why += " (definite: exp <= %d, mant <= %d, and <= %d when exp >= 2)" % (inf, hid, msk)
+                else:
+                    why += " (exit straddles declined and definite)"
+        ctx.oblige("post:stage exit is declined-normalised or definite-packable", ok, inst, inst.get("span"), why)
+    ctx.oblige("post:stage has declined and definite exits", n_def >= 1 and n_dec >= 1, inst, inst.get("span"), "%d definite, %d declined" % (n_def, n_dec))
+
+
 def saturation_postconditions(ctx, inst, positive):
     """C19: parse_exponent returns the saturation constant only when the accumulator was about to overflow"""
     lim = ((1 << 31) - 1 - 9) // 10 + 1        # smallest accumulator value for which value*10 + digit can exceed i32::MAX
